@@ -83,7 +83,54 @@ static void one(Harness &H, const std::string &d0, const Grid<S> &g, const std::
   }
 }
 
+// large supports: searches that switch strategy with the size of the support (linear scan below a threshold,
+// bisection above) have to be exercised on both sides of any plausible threshold
+template <size_t o>
+static void large(Harness &H, size_t n) {
+  auto pts = grid_family("uni", n);
+  for (size_t i = 0; i < n; i++) pts[i] = pts[i] * pts[i] / mpq_class((long)n) + pts[i] / 3;  // strictly increasing, non-uniform
+  Grid<S> g = mkgrid<S>(pts);
+  std::string d0 = "large" + std::to_string(n);
+  for (Win w : {Win{0, n}, Win{1, n}, Win{0, n - 1}, Win{3, n - 2}, Win{n / 2, n}}) {
+    size_t K = w.nint() * (o + 1);
+    for (size_t p : {K + 1, K + 2}) {
+      if (!H.take()) continue;
+      H.begin(d0 + ";o" + std::to_string(o) + ";" + wstr(w) + ";" + pname(K, p));
+      auto flat = pattern(K, p);
+      Spline<S, o> s = mkspline<S, o>(g, w, flat);
+      H.nontriv();
+      H.cls("win:large");
+      for (size_t i = 0; i + 1 < n; i++)
+        for (int q = 0; q <= 4; q++) {
+          mpq_class x = pts[i] + (pts[i + 1] - pts[i]) * mq(q, 4);
+          mpq_class y = val(s(mk<S>(x)));
+          H.count("point_evaluations");
+          std::vector<mpq_class> ok;
+          bool inside = x >= pts[w.s] && x <= pts[w.e - 1];
+          if (!inside) ok.push_back(0);
+          else
+            for (size_t j = 0; j < w.nint(); j++) {
+              const mpq_class &lo = pts[w.s + j], &hi = pts[w.s + j + 1];
+              if (x < lo || x > hi) continue;
+              mpq_class xm = (lo + hi) / 2, r = 0, pw = 1;
+              for (size_t k = 0; k <= o; k++) { r += flat[j * (o + 1) + k] * pw; pw *= (x - xm); }
+              ok.push_back(r);
+            }
+          bool good = false;
+          for (auto &e : ok) good = good || e == y;
+          if (!good) { H.fail(inside ? "eval-inside" : "eval-outside", "s(" + x.get_str() + ") = " + y.get_str() + ", expected " + vstr(ok) + " (support of " + std::to_string(w.size()) + " grid points)"); i = n; break; }
+        }
+      H.end();
+    }
+  }
+}
+
 static void run(Harness &H) {
+  for (size_t n : {17, 32, 33, 34, 35, 64, 65, 66, 100, 129}) {
+    if (!H.thorough() && n > 66) continue;
+    large<0>(H, n);
+    large<1>(H, n);
+  }
   const size_t NMAX = H.thorough() ? 7 : 5, OMAX = H.thorough() ? 4 : 3;
   for (std::string fam : {"uni", "nonuni", "far", "neg"})
     for (size_t n = 2; n <= NMAX; n++) {
